@@ -1,10 +1,15 @@
 """C34 — array creation routines are chunk-invariant and equal NumPy.
 
-Model:    lean/DaskModel/Model/Creation.lean (arange / linspace / eye / diag / tri block arithmetic, exact integers)
+Models:   lean/DaskModel/Model/Creation.lean      arange (generic arithmetic), linspace, eye, diag (1-d, k=0), 2-d diagonal walk, tri
+          lean/DaskModel/Model/SoftFloat.lean     exact binary64 (dyadic rationals, round-to-nearest-even), no Float
+          lean/DaskModel/Model/CreationFloat.lean da.arange over binary64: guard, num, first/second, block values
+          lean/DaskModel/Model/DiagonalNd.lean    n-d diagonal (axes, free blocks, task table, read map), diag(v,k), 2-d->1-d diag
+          lean/DaskModel/Model/CreationGrid.lean  meshgrid / indices / fromfunction / constant fills
 Theorems: lean/DaskModel/Props/C34.lean
-Tie:      function-level: the arguments of every task in the real graphs of arange / linspace / eye are
-          diffed against the model's block tables; API-level: every routine vs NumPy (values, dtype,
-          per-block shapes = declared chunks, chunks add up to the shape) for random chunk specs.
+Tie:      function level: task arguments of the real arange / linspace / eye / diagonal graphs vs the model tables; per-block
+          outputs of arange (binary64, bit for bit), meshgrid, indices, fromfunction vs the model; the binary64 model itself vs
+          CPython floats; API level: every routine vs NumPy (values exact incl. float arange/linspace, dtype, per-block
+          shapes = declared chunks, chunks add up to the shape) for random chunk specs.
 """
 from __future__ import annotations
 
@@ -20,25 +25,44 @@ READY = True
 DRIVER = "dm_chunks"
 LEAN_MODULES = ["DaskModel.Props.C34"]
 CASE_TIMEOUT_S = 20
-LEVEL_TEXT = ("Lean 4 theorems over exact integer (= rational, after scaling) arithmetic of the per-block plans: "
-              "arange_num_spec_pos/neg (num counts exactly the indices before stop), arange_den (for every chunking and "
-              "sign of step the blocks have the declared lengths and concatenate to start+i*step), linspace_den (every "
-              "element is a function of its global index only; the repaired da.linspace is compared with NumPy bit for bit), "
-              "eye_den (element (r,c) is 1 iff c-r=k for every row/column chunking, incl. the np.zeros blocks), "
-              "diag_den (1-d, k=0), diagonal_den (2-d: the while loop that follows the k-diagonal through the blocks "
-              "terminates, declares np.diagonal's lengths and reads exactly the diagonal positions in order - loop "
-              "invariant, any chunking, any k), tri_den, chunks_sum_shape (via C23). Float behaviour (fractional steps, length "
-              "rounding, float linspace) is validated against NumPy, not proved; n-d diagonal (free axes)/indices/meshgrid/fromfunction/"
-              "full/ones/zeros(_like) are validated at API level only.")
-LEVEL_NOTE = ("Trusted: Lean kernel + standard axioms; the harness; NumPy kernels on one block (np.arange/eye/diag/diagonal) as "
-              "specified in ASSUMPTIONS. linspace is compared with NumPy bit for bit (every element is a function of its "
-              "global index since the repair).")
-TECHNIQUE = "Lean 4 proof (induction over the chunk list, exact integer/rational arithmetic) + differential correspondence"
+LEVEL_TEXT = ("Lean 4 theorems, for every chunking (no size bound). arange (after fix b762398: every element from its global "
+              "index): arange_den holds for ANY arithmetic of the computation dtype - block lengths are the declared chunks and the "
+              "blocks concatenate to the one-block array first+i*(second-first) (NumPy's fill loop), so float arange is chunk-invariant "
+              "bit for bit; over the integers (= rationals after scaling) arange_int_spec/arange_int_den/arange_num_spec_pos/neg give "
+              "NumPy's values and length. Floats: an exact binary64 model (dyadic rationals, round-to-nearest-even; no Float) is tied "
+              "bit for bit to CPython and to the real blocks; arange_f_exact_partial proves that on a dyadic grid with magnitudes "
+              "< 2^53 the float plan is the unshifted one, num is exact and all values are the exact ones; arange_f_num_not_exact / "
+              "arange_f_exact_refuted show that in general float num is NumPy's ceil of a rounded quotient, not the exact one (dask "
+              "and NumPy use the same formula: validated, not proved); old_arange_plan_refuted records the repaired defect. "
+              "linspace_den (every element a function of its global index), eye_den (any row/column chunking, any k, incl. the "
+              "np.zeros blocks), diag_den (1-d, k=0), diag_k_den (1-d, any k: constant pad around it), diag_2d_fast_den, "
+              "diagonal_den (2-d walk: terminates, np.diagonal's lengths, exactly the diagonal positions in order), diagonal_nd_den "
+              "(any ndim, normalised axes, any offset: the assembled result reads NumPy's positions; free axes' blocks carried "
+              "along), diagonal_nd_tasks, normAxes_spec, grid_den (fromfunction: any function of the global index), indices_den, "
+              "indices_axis0, meshgrid_den (xy/ij, sparse/dense), full_den (ones/zeros/full(_like)), tri_den, chunks_sum_shape (via "
+              "C23). Validated only (differentially, vs NumPy, exact comparison): dtypes, integer floor of linspace, binary32 arange, "
+              "the pad/stack/broadcast/blockwise layers underneath diag(v,k)/indices/meshgrid/fromfunction (their block plans are "
+              "diffed per block), auto/byte-string chunk specs, *_like argument handling, empty(_like) (shape/dtype only).")
+LEVEL_NOTE = ("Trusted: Lean kernel + standard axioms; the harness; NumPy kernels on ONE block (np.eye, np.diag, np.diagonal, "
+              "np.arange(offset, offset+size), elementwise + - * on an array, broadcast_to, astype) as listed in ASSUMPTIONS. "
+              "The binary64 model does not cover overflow to inf, NaN and the sign of zero (the harness diffs only finite "
+              "results). In the regime |start| >> |step| dask deliberately returns arange(0, stop-start, step) + start (dask#11706): "
+              "there lengths/dtype/chunk-invariance are checked exactly and the shifted values bit for bit against the model, but "
+              "against NumPy only within (num+4) ulp of the largest value. Known finding: float arguments with an integer dtype "
+              "(pinned strict xfail in dask's own suite).")
+TECHNIQUE = ("Lean 4 proof (induction over chunk lists / loop invariant of the diagonal walk / exact integer, rational and binary64 "
+             "arithmetic) + differential correspondence (function level on task arguments and per-block outputs, API level vs NumPy)")
 ASSUMPTIONS = [
-    "np.arange(a, b, s) = [a + j*s | j < ceil((b-a)/s)], np.eye(n, m, k)[r, c] = (c - r == k), np.diag of one block: NumPy's (validated by the API-level comparison)",
-    "float rounding of fractional start/stop/step is outside the theorems (exact arithmetic); validated against NumPy with generators aimed at length-rounding edges",
+    "NumPy on one block: np.eye(n, m, k)[r, c] = (c - r == k); np.diag(v) of a 1-d block; np.diagonal(block, k, a1, a2)[f.., t] = "
+    "block[f.. with max(0,-k)+t on a1 and max(0,k)+t on a2]; np.arange(a, b) of integers; elementwise arithmetic of the dtype; "
+    "np.broadcast_to (validated by the API-level comparison of every case)",
+    "np.arange(start, stop, step) itself = first + i*(second-first) in the dtype's arithmetic with [0]=first, [1]=second and length "
+    "ceil((stop-start)/step) computed in binary64: NumPy's documented fill loop, checked bit for bit on every generated case",
+    "binary64 = round-to-nearest-even on dyadic rationals with 53 bits and minimal exponent -1074 (Model/SoftFloat.lean): diffed "
+    "against CPython on random significands, exact ties, subnormal results, exact/inexact quotients in every run",
+    "exact (integer/rational) theorems transfer to floats only where no operation rounds (arange_f_exact_partial states that regime)",
 ]
-TRUSTED = []
+TRUSTED = ["CPython float arithmetic (IEEE-754 binary64, round-to-nearest-even) as the reference for Model/SoftFloat.lean"]
 
 
 def _chunks_ok(ctx, r, what):
@@ -346,6 +370,10 @@ def case_linspace(ctx, inp):
         ctx.branch("linspace:no-endpoint")
     if np.dtype(e.dtype).kind in "iu":
         ctx.branch("linspace:int-dtype")
+    if num > 1 and float(rstep) == 0.0 and pa != pb:
+        ctx.branch("linspace:step-underflows")
+    if isinstance(a, int) and isinstance(b, int) and max(abs(a), abs(b)) > 2 ** 53:
+        ctx.branch("linspace:int-endpoints>2**53")
     # since `fix: da.linspace computes every element from its global index` the result is NumPy's bit for bit
     _same(ctx, "linspace", r, e, exact=True)
 
@@ -609,6 +637,8 @@ def case_misc(ctx, inp):
             r, e = da.full(shape, fv, dtype=dt, chunks=chunks), np.full(shape, fv, dtype=dt)
         else:
             r, e = getattr(da, op)(shape, dtype=dt, chunks=chunks), getattr(np, op)(shape, dtype=dt)
+        if isinstance(chunks, tuple) and chunks and all(isinstance(c, tuple) for c in chunks) and r.chunks != chunks:
+            ctx.fail(f"{op}: explicit chunks not honoured", observed=r.chunks, expected=chunks)
         if op == "empty":
             if tuple(r.shape) != e.shape or r.dtype != e.dtype or not _chunks_ok(ctx, r, op):
                 ctx.fail("empty: shape/dtype/chunks", observed=[r.shape, str(r.dtype), r.chunks])
@@ -927,6 +957,20 @@ def generate(ctx):
             a, b = [rng.randint(-50, 50), d], [rng.randint(-50, 50), d]
         yield "linspace", {"start": a, "stop": b, "num": num, "endpoint": rng.random() < 0.6,
                            "chunks": _spec_py(_chunk_spec(rng, num)), "dtype": rng.choice([None, None, "f4", "i8"])}
+    for _ in range(ctx.n(40, 600)):
+        # denormal ranges ((stop-start)/div underflows to 0.0: NumPy divides before multiplying) and integer endpoints
+        # beyond 2**53 (NumPy subtracts them as floats)
+        num = rng.choice([0, 1, 2, 3, 4, 5, 7, 9, 13])
+        if rng.random() < 0.5:
+            tiny = 5e-324
+            a = rng.choice([0.0, tiny * rng.randint(-5, 5), 1.0, -2.5, rng.uniform(-1, 1)])
+            a, b = _hx(a), _hx(a + tiny * rng.randint(-40, 40))
+        else:
+            k = rng.randint(50, 62)
+            a = rng.choice([1, -1]) * (2 ** k + rng.randint(-9, 9))
+            b = a + rng.randint(-40, 40) * rng.choice([1, 1, 2 ** max(k - 52, 0)])
+        yield "linspace", {"start": a, "stop": b, "num": num, "endpoint": rng.random() < 0.6,
+                           "chunks": rng.choice([1, 2, 3, 5, "auto"]), "dtype": rng.choice([None, None, "f4", "i8"])}
     # --- diag / diagonal ---------------------------------------------------------------------------------
     for _ in range(ctx.n(200, 2500)):
         r = rng.random()
